@@ -1,5 +1,7 @@
 // rapidcheck lives only in this translation unit (it is the expensive header).
 #include "common.hpp"
+#include <signal.h>
+#include <sys/time.h>
 #include <rapidcheck.h>
 
 namespace vf {
@@ -88,6 +90,27 @@ static rc::Gen<std::vector<uint32_t>> choiceGen(int maxChoices) {
 
 long g_shrinkBudget = 30000;
 
+// ---- hang watchdog: a profiling timer (CPU time of this process, so machine load and descheduling do not count) fires
+// every 5 s; four consecutive ticks without progress (vfTick) mean that one library call has been running for >= 15 s of
+// CPU time where a case takes micro- to milliseconds: the case is dumped like a sanitizer death and the process exits.
+static volatile unsigned long g_lastProgress = 0;
+static volatile int g_stalled = 0;
+static void watchdogTick(int) {
+    if (vf_progress != g_lastProgress) { g_lastProgress = vf_progress; g_stalled = 0; return; }
+    if (++g_stalled < 4) return;
+    const char *m = "HANG: the case in progress has not finished after 20 s of CPU time (the library does not return)\n";
+    (void) !write(1, m, strlen(m));
+    deathCb();
+    _exit(96);
+}
+static void startWatchdog() {
+    struct sigaction sa; memset(&sa, 0, sizeof sa);
+    sa.sa_handler = watchdogTick; sa.sa_flags = SA_RESTART;
+    sigaction(SIGPROF, &sa, nullptr);
+    struct itimerval it; it.it_interval.tv_sec = 5; it.it_interval.tv_usec = 0; it.it_value = it.it_interval;
+    setitimer(ITIMER_PROF, &it, nullptr);
+}
+
 void runRandom(const Opt &o, Ev &ev, const std::string &sub, int maxChoices, int nCases,
                const std::function<std::string(Src &, Ev &)> &body) {
     using namespace rc;
@@ -156,6 +179,7 @@ int mainWith(int argc, char **argv, const char *prop, std::vector<Sub> subs) {
     }
     if (o.seed == 0) o.seed = 1;
     if (__sanitizer_set_death_callback) __sanitizer_set_death_callback(deathCb);
+    startWatchdog();
 
     if (!o.replayFile.empty()) {
         Replay r;
